@@ -8,7 +8,8 @@
 (*   H9       hook H9 on the server: the decrypted EncodedClientHelloInner *)
 (*            ("ech_encoded_inner") and the reconstructed ClientHelloInner *)
 (*            ("ech_inner"), for the first and for the second hello        *)
-(*   SMsg     the server's plaintext ServerHello / HelloRetryRequest (2)   *)
+(*   SMsg     the server's plaintext ServerHello / HelloRetryRequest (2,   *)
+(*            with its cookie extension if it carries one)                 *)
 (*            and EncryptedExtensions (8) before encryption                *)
 (*   SrvName  the name the server acted on (GetConfigForClient)            *)
 (*   Result   error type (+ RetryConfigList), both ConnectionStates        *)
@@ -23,7 +24,7 @@ Trace == ndJsonDeserialize("ech_trace.ndjson")
 VARIABLES l, aux, rej
 vars == <<scn, cli, srv, obs, l, aux, rej>>
 
-NoScn == [sc |-> -1, id |-> "", sname |-> <<>>, pubname |-> <<>>, server |-> "noech", hrr_group |-> 0, cert |-> "neither",
+NoScn == [sc |-> -1, id |-> "", sname |-> <<>>, pubname |-> <<>>, server |-> "noech", hrr_group |-> 0, cookie |-> 0, cert |-> "neither",
           cfg_list |-> <<>>, retry_list |-> <<>>]
 \* aux: pend = encoded inner waiting for its reconstruction; done = Result seen; srvname = last name the server acted on;
 \*      nsh = ServerHellos seen
@@ -40,7 +41,7 @@ RetryListOf(keys) == IF \E i \in DOMAIN keys : keys[i].retry THEN Vec16(FlaggedC
 
 \* ---- Scn: BuildOuter
 ScnOf(ev) == [sc |-> ev.sc, id |-> ev.id, sname |-> ev.sname, pubname |-> ev.pubname, server |-> ev.server, hrr_group |-> ev.hrr_group,
-              cert |-> ev.cert, cfg_list |-> ev.cfg_list, retry_list |-> RetryListOf(ev.srv_keys)]
+              cookie |-> ev.cookie, cert |-> ev.cert, cfg_list |-> ev.cfg_list, retry_list |-> RetryListOf(ev.srv_keys)]
 \* the harness built the configuration the scenario asks for (else the machinery is broken, not the library)
 ScnSane(ev, c) == /\ ev.server \in ServerModes /\ ev.usage \in Range(Usages) /\ ev.cert \in CertKinds /\ ev.sname # ev.pubname
                   /\ ShapeSane(ev.shape, ParseCfgList(ev.cfg_list))
@@ -63,8 +64,9 @@ OnCRec(ev) ==
 \* ---- H9: the server opened a hello (part of S_OnCH1 / S_OnCH2; the decision is bound at the ServerHello)
 OnH9(ev) ==
   /\ UNCHANGED <<scn, cli, srv>>
-  /\ IF ev.what = "ech_encoded_inner" THEN aux' = [aux EXCEPT !.pend = ev.raw] /\ obs' = obs /\ rej' = rej
-     ELSE IF ev.what = "ech_inner" THEN aux' = [aux EXCEPT !.pend = <<>>] /\ obs' = O_Inner(obs, aux.pend, ev.raw) /\ rej' = rej
+  /\ IF ev.what = "ech_encoded_inner" THEN aux' = [aux EXCEPT !.pend = ev.raw] /\ obs' = O_Opened(obs, ev.raw) /\ rej' = rej
+     ELSE IF ev.what = "ech_inner" THEN /\ aux' = [aux EXCEPT !.pend = <<>>] /\ obs' = O_Reconstructed(obs, ev.raw)
+                                        /\ rej' = rej \cup (IF aux.pend = <<>> THEN Fail("order", "inner-hello-without-opened-payload") ELSE {})
      ELSE aux' = aux /\ obs' = obs /\ rej' = rej \cup Fail("order", <<"unknown-hook-event", ev.what>>)
 
 \* ---- SMsg: S_OnCH1 (HelloRetryRequest or ServerHello), S_OnCH2, S_SendParams.
@@ -75,11 +77,13 @@ OnSMsg(ev) ==
   /\ UNCHANGED <<scn, cli>>
   /\ IF ev.t = 2 /\ IsHRRMsg(ev.raw) THEN
         /\ srv' = (IF srv.pc = "wait_ch" THEN S_OnCH1(srv, scn) ELSE srv)
-        /\ obs' = [obs EXCEPT !.hrr = HRRGroupOf(ev.raw)]
+        /\ obs' = O_HRR(obs, HRRGroupOf(ev.raw), HRRCookieOf(ev.raw))
         /\ aux' = aux
         /\ rej' = rej \cup (IF srv.pc # "wait_ch" THEN Fail("order", "second-hello-retry-request") ELSE {})
                       \cup (IF ~SrvSendsHRR(scn) THEN Fail("calibration", "unexpected-hello-retry-request") ELSE {})
                       \cup (IF SrvSendsHRR(scn) /\ HRRGroupOf(ev.raw) # scn.hrr_group THEN Fail("calibration", "hello-retry-request-names-another-group") ELSE {})
+                      \cup (IF Len(HRRCookieOf(ev.raw)) # (IF scn.cookie = 0 THEN 0 ELSE scn.cookie + 2)
+                            THEN Fail("calibration", "hello-retry-request-cookie-not-as-asked") ELSE {})
      ELSE IF ev.t = 2 THEN
         /\ srv' = (IF srv.pc = "wait_ch" THEN S_OnCH1(srv, scn) ELSE IF srv.pc = "wait_ch2" THEN S_OnCH2(srv) ELSE srv)
         /\ obs' = obs /\ aux' = [aux EXCEPT !.nsh = aux.nsh + 1]
